@@ -83,6 +83,17 @@ Theorem C13_accepted_trace_discipline : forall cfg tr,
 Proof. exact accepted_discipline_ok. Qed.
 Print Assumptions C13_accepted_trace_discipline.
 
+(** model-free form (no program counters, only the events): tracking the owner from the Lock /
+    Unlock events of an accepted trace, [raw_discipline None tr 0] finds no event that is a Lock of
+    an owned mutex, an Unlock by a non-owner, an Access / Mutate by a non-owner (I2), a HookCall by
+    the owner (I3) or a Done of a thread that still owns the mutex (no thread returns with the
+    lock held: I1 at thread exit).  This predicate is what the check evaluates on a logged
+    implementation trace even when the LTS rejects it. *)
+Theorem C13_accepted_trace_raw_discipline : forall cfg tr,
+  accepts cfg tr = true -> raw_discipline None tr 0 = None.
+Proof. exact accepted_raw_discipline. Qed.
+Print Assumptions C13_accepted_trace_raw_discipline.
+
 (** non-vacuity: a receiver (1), a transmitter (2) and an application thread (3) interleaved -
     one received frame with a hook that takes the lock, one event transmit whose hook mutates the
     message, an application critical section in between; the trace is accepted, satisfies the
@@ -99,5 +110,7 @@ Definition c13_trace : list event :=
 Example C13_nonvacuous :
   accepts c13_cfg c13_trace = true /\ order_ok c13_trace = true /\
   discipline_ok (init c13_cfg) c13_trace = true /\
-  accepts c13_cfg (filter (fun e => match e with Lock 1 => false | _ => true end) c13_trace) = false.
+  accepts c13_cfg (filter (fun e => match e with Lock 1 => false | _ => true end) c13_trace) = false /\
+  raw_discipline None c13_trace 0 = None /\
+  raw_discipline None [Lock 1; Access 1 (WUnmarshal false); Done 1 false] 0 = Some (2, DvExitLocked).
 Proof. vm_compute. repeat split. Qed.
